@@ -177,14 +177,20 @@ func c13(c *core.Ctx) {
 	if c.Rule("R2", "credential metadata is merged after the caller's own (metadata.Join(existing, new)), and the context returned by the step is the one request headers are taken from", 3) {
 		key := core.FuncName(apply)
 		var noc *ssa.Call
+		var nocs []*ssa.Call
 		for _, call := range core.CallsIn(apply, func(_ *ssa.Call, ci core.CallInfo) bool { return ci.Is(metadataPkg + ".NewOutgoingContext") }) {
 			noc = call
+			nocs = append(nocs, call)
 		}
 		if noc == nil {
 			c.Fail(key+":attach", apply.Pos(), "no metadata.NewOutgoingContext call")
 		} else {
 			okJoin, okNew := false, false
-			for _, o := range core.Origins(noc.Call.Args[1]) {
+			var attached []ssa.Value
+			for _, nc := range nocs {
+				attached = append(attached, core.Origins(nc.Call.Args[1])...)
+			}
+			for _, o := range attached {
 				call, _, ok := core.CallResult(o)
 				if !ok {
 					continue
@@ -207,7 +213,14 @@ func c13(c *core.Ctx) {
 			// returned ctx on that path is the NewOutgoingContext result
 			retOK := false
 			for _, r := range core.Returns(apply) {
-				if core.OriginIs(r.Results[0], func(o ssa.Value) bool { return o == ssa.Value(noc) }) {
+				if core.OriginIs(r.Results[0], func(o ssa.Value) bool {
+					for _, nc := range nocs {
+						if o == ssa.Value(nc) {
+							return true
+						}
+					}
+					return false
+				}) {
 					retOK = true
 				}
 			}
